@@ -1,5 +1,6 @@
 """C18 — PKGNAME decomposition is lossless and consistent across the library (structural clauses)."""
 from lib import *
+from lib import _sep
 
 EXPLANATION = (
     "D1 every splitter (PkgName::new, Summary::pkgbase/pkgversion, Dewey::matches) searches the LAST '-' (rsplitn(2)/rsplit_once/rfind) and never a first-occurrence or unbounded split; "
@@ -10,11 +11,21 @@ NOT_DECIDED = [
     "str::rsplit_once / rfind / split_at semantics (std)",
 ]
 CONFIG_SENSITIVE = False
+DESUGAR = True
 
 PN = "pkgname::PkgName::new"
 
 
 def check_part(ctx, fn, body, inst, term, role, subject_pred, span):
+    # normal form first: subject[start..end] with searched positions (covers rsplit_once, rfind + split_at, rfind + slicing, rsplitn(2) + index)
+    ss = substr(term)
+    r = substr_role(ss)
+    if r[0] in ("prefix", "suffix"):
+        ctx.check(r[2] == "-" and r[1] == "rfind", "D1-LASTSEP", fn, inst, "last '-' (%s)" % r[1],
+                  "%s is cut at the %s occurrence of %r: PKGNAME must be split at its LAST '-'" % (inst, {"find": "first", "rfind": "last"}.get(r[1]), r[2]), span)
+        ctx.check(r[0] == role, "D2-ORIENT", fn, inst, "%s = %s" % (inst, role), "%s receives the %s of the name; expected the %s" % (inst, r[0], role), span)
+        ctx.check(subject_pred(ss[0]), "D2-SUBJECT", fn, inst, "split subject is the package name", "%s is split from %s, not from the package name" % (inst, term_str(ss[0])), span, nontrivial=False)
+        return dict(sep=r[2], subject=ss[0], api=r[1])
     sps = find_split_parts(term)
     if not sps:
         ctx.violation("D2-ORIENT", fn, inst, "%s is not a part of a '-' split (got %s)" % (inst, term_str(term)), span)
@@ -31,76 +42,85 @@ def check_part(ctx, fn, body, inst, term, role, subject_pred, span):
 
 def run(ctx):
     fx = ctx.fx
-    # ---- PkgName::new
+    # ---- PkgName::new, on paths where Option/Result combinators are evaluated as the matches they abbreviate (DESUGAR) and every
+    #      split idiom is normalised to subject[start..end] (lib.substr)
     ps = ctx.paths(PN)
     if ps:
         body = ctx.body(PN)
         rets = ret_paths(ps)
         ctx.floor("D2-ORIENT", PN, "returning paths", len(rets), 2)
-        saw_dash = saw_nodash = saw_nb = saw_nonb = False
+        isp1 = lambda t: t == ("param", 1)
+        saw = {"dash": 0, "nodash": 0, "nb": 0, "nonb": 0}
         for i, p in enumerate(rets):
             a = agg_variant(p.end[1])
             if not a or a[0] != "pkgname::PkgName":
                 ctx.violation("D2-ORIENT", PN, "ret-%d" % i, "does not return a PkgName aggregate", fn_span(body))
                 continue
             fields = dict(zip(p.end[1][5], a[2]))
-            whole = fields.get("pkgname")
-            ctx.check(whole is not None and is_call(whole, "::to_string", "::from", "::to_owned") and strip_refs(call_args(whole)[0]) == ("param", 1),
-                      "D2-WHOLE", PN, "pkgname-field", "pkgname = the unmodified input", "PkgName.pkgname is not the unmodified input string", fn_span(body), nontrivial=False)
-            isp1 = lambda t: t == ("param", 1)
-            has_dash = bool(find_split_parts(fields.get("pkgbase"))) or bool(find_split_parts(fields.get("pkgversion")))
-            if has_dash:
-                saw_dash = True
-                check_part(ctx, PN, body, "pkgbase", fields.get("pkgbase"), "prefix", isp1, fn_span(body))
-                check_part(ctx, PN, body, "pkgversion", fields.get("pkgversion"), "suffix", isp1, fn_span(body))
-            else:
-                saw_nodash = True
-                b, v = fields.get("pkgbase"), fields.get("pkgversion")
-                okb = is_call(b) and strip_refs(call_args(b)[0]) == ("param", 1)
-                okv = is_call(v) and const_str(call_args(v)[0]) == "" if is_call(v) and call_args(v) else is_call(v, "String::new")
-                ctx.check(okb and okv, "D2-NODASH", PN, "no-dash-arm", "no '-' -> (whole, \"\")",
-                          "without a '-' PkgName stores base=%s version=%s; expected (whole input, \"\")" % (term_str(b), term_str(v)), fn_span(body))
-            # the arm is chosen by the search for '-' alone: found -> split there, not found -> (whole, ""); no condition looks at the parts
-            dsearch = [c for c in p.conds() if c.term[0] == "discr" and is_call(c.term[1], "str>::rsplit_once", "str>::rfind", "str>::split_once", "str>::find")
-                       and len(call_args(c.term[1])) > 1 and const_char(call_args(c.term[1])[1]) == "-" and strip_refs(call_args(c.term[1])[0]) == ("param", 1)]
-            found = [c for c in dsearch if c.fact == ("eq", 1)]
-            onparts = [c for c in p.conds() if c.term[0] != "discr" or not is_call(c.term[1], "str>::rsplit_once", "str>::rfind", "str>::split_once", "str>::find")
-                       if any(sp_["sep"] == "-" and sp_.get("index") is not None for sp_ in find_split_parts(c.term))]
-            bad = (found and not has_dash) or bool(onparts)
-            ctx.check(not bad, "D2-ARM-BY-SEARCH", PN, "ret-%d:%s" % (i, "dash" if has_dash else "no-dash"),
-                      "arm decided by the '-' search result alone",
-                      "a returning path of PkgName::new %s: any string containing a '-' must be split at the last one, whatever the parts look like" % (
-                          "found a '-' but stores (whole, \"\")" if found and not has_dash else "is selected by a condition on a part of the split (%s)" % term_str(onparts[0].term) if onparts else ""),
-                      fn_span(body), nontrivial=False)
-            # D3 revision
-            rev = fields.get("pkgrevision")
-            nbc = [c for c in p.conds() if c.term[0] == "discr" and is_call(c.term[1], "str>::rsplit_once", "str>::split_once", "str>::rfind", "str>::find")
-                   and const_str(call_args(c.term[1])[1]) == "nb"]
-            if not nbc:
-                ctx.violation("D3-NB", PN, "search", "no search for \"nb\" decides the revision", fn_span(body))
+            ctx.check(content(fields.get("pkgname")) == ("param", 1), "D2-WHOLE", PN, "pkgname-field", "pkgname = the unmodified input",
+                      "PkgName.pkgname is %s, not the unmodified input string" % term_str(fields.get("pkgname")), fn_span(body), nontrivial=False)
+            b_, v_ = fields.get("pkgbase"), fields.get("pkgversion")
+            found = search_outcome(p, isp1, "-")
+            sb, sv = substr(b_), substr(v_)
+            rb, rv = substr_role(sb), substr_role(sv)
+            if found is None:
+                ctx.violation("D2-ARM-BY-SEARCH", PN, "ret-%d" % i, "a returning path of PkgName::new is not decided by a search for '-' in the input (base=%s, version=%s)" % (term_str(b_)[:80], term_str(v_)[:80]), fn_span(body))
                 continue
-            c = nbc[0]
-            api = mir.norm_path(c.term[1][1]).split("::")[-1]
-            subj = strip_refs(call_args(c.term[1])[0])
-            ver = fields.get("pkgversion")
-            ctx.check(api in ("rsplit_once", "rfind"), "D3-NB-LAST", PN, "api", "last-occurrence search for \"nb\"",
-                      "revision is located with %s: the LAST \"nb\" of the version must be used" % api, fn_span(body), nontrivial=(i == 0))
-            ctx.check(subj == strip_refs(ver) or mentions(ver, lambda s: s == subj), "D3-NB-SUBJECT", PN, "on-version", "searched in the version part",
-                      "\"nb\" is searched in %s, not in the version part" % term_str(subj), fn_span(body), nontrivial=False)
-            if c.fact == ("eq", 0):
-                saw_nonb = True
-                ctx.check(is_none(rev), "D3-NB", PN, "no-nb-arm", "no nb -> None", "a version without nb reports revision %s" % term_str(rev), fn_span(body))
+            if found:
+                saw["dash"] += 1
+                ctx.check(rb[0] == "prefix" and rb[2] == "-" and isp1(sb[0]), "D2-ORIENT", PN, "pkgbase", "pkgbase = input[..last '-']",
+                          "when the name contains a '-', pkgbase is %s (%s of %s %r): expected the text before the LAST '-'" % (term_str(b_)[:100], rb[0], rb[1], rb[2]), fn_span(body))
+                ctx.check(rv[0] == "suffix" and rv[2] == "-" and isp1(sv[0]), "D2-ORIENT", PN, "pkgversion", "pkgversion = input[last '-' + 1..]",
+                          "when the name contains a '-', pkgversion is %s (%s of %s %r): expected the text after the LAST '-'" % (term_str(v_)[:100], rv[0], rv[1], rv[2]), fn_span(body))
+                ctx.check(rb[1] == "rfind" and rv[1] == "rfind", "D1-LASTSEP", PN, "ret-%d" % i, "split at the last '-'",
+                          "PkgName::new splits at the %s / %s occurrence of '-': PKGNAME must be split at its LAST '-'" % ({"find": "first", "rfind": "last"}.get(rb[1], rb[1]), {"find": "first", "rfind": "last"}.get(rv[1], rv[1])),
+                          fn_span(body), nontrivial=(saw["dash"] == 1))
             else:
-                saw_nb = True
-                pr = find_calls(rev, "str>::parse")
-                okp = bool(pr) and "i64" in str(pr[0][2])
-                sps = find_split_parts(call_args(pr[0])[0]) if pr else []
-                oks = bool(sps) and part_role(sps[0]) == "suffix" and sps[0]["sep"] == "nb"
-                zero = [s for s in subterms(rev) if s[0] == "agg" and s[1] == "adt" and s[3] == "Some" and const_int(s[4][0]) == 0] if isinstance(rev, tuple) else []
-                ctx.check(okp and oks and bool(zero), "D3-NB", PN, "nb-arm", "Some(parse::<i64>(text after last nb) or 0)",
-                          "revision is %s; expected the i64 parse of the text after the last nb, defaulting to 0" % term_str(rev), fn_span(body))
-        ctx.check(saw_dash and saw_nodash, "D2-ORIENT", PN, "both-arms", "dash / no-dash arms present", "PkgName::new lacks a dash or a no-dash arm", fn_span(body), nontrivial=False)
-        ctx.check(saw_nb and saw_nonb, "D3-NB", PN, "both-arms", "nb / no-nb arms present", "PkgName::new lacks an nb or a no-nb arm", fn_span(body), nontrivial=False)
+                saw["nodash"] += 1
+                ctx.check(content(b_) == ("param", 1) and is_empty_str(v_), "D2-NODASH", PN, "no-dash-arm", "no '-' -> (whole, \"\")",
+                          "without a '-' PkgName stores base=%s version=%s; expected (whole input, \"\")" % (term_str(b_)[:80], term_str(v_)[:80]), fn_span(body), nontrivial=(saw["nodash"] == 1))
+            # no condition on a PART of the split decides anything about base/version (e.g. "base must be non-empty")
+            onparts = [c for c in p.conds() if not (c.term[0] == "discr" and is_call(strip_refs(c.term[1]), "str>::rsplit_once", "str>::rfind", "str>::split_once", "str>::find", "str>::parse"))
+                       and any(substr_role(substr(x))[2] == "-" and isp1(substr(x)[0]) for x in subterms(c.term) if substr(x))]
+            ctx.check(not onparts, "D2-ARM-BY-SEARCH", PN, "ret-%d:%s" % (i, "dash" if found else "no-dash"), "arm decided by the '-' search result alone",
+                      "a returning path of PkgName::new is selected by a condition on a part of the split (%s): any string containing a '-' must be split at the last one, whatever the parts look like"
+                      % (term_str(onparts[0].term)[:120] if onparts else ""), fn_span(body), nontrivial=False)
+            # D3 revision: decided by a last-occurrence search for "nb" in the version part
+            ver_c = content(v_)
+            is_ver = lambda t: t == ver_c or (substr(t) is not None and substr(t) == sv) or (not found and is_empty_str(t))
+            nbf = search_outcome(p, is_ver, "nb")
+            rev = fields.get("pkgrevision")
+            if nbf is None:
+                ctx.violation("D3-NB", PN, "search", "no search for \"nb\" in the version part decides the revision on a returning path (revision = %s)" % term_str(rev)[:100], fn_span(body))
+                continue
+            first_nb = [c for c in p.conds() if c.term[0] == "discr" and is_call(strip_refs(c.term[1]), "str>::split_once", "str>::find") and _sep(call_args(strip_refs(c.term[1]))[1]) == "nb"]
+            ctx.check(not first_nb, "D3-NB-LAST", PN, "api", "last-occurrence search for \"nb\"", "revision is located with a first-occurrence search: the LAST \"nb\" of the version must be used",
+                      fn_span(body), nontrivial=(i == 0))
+            if not nbf:
+                saw["nonb"] += 1
+                ctx.check(is_none(rev), "D3-NB", PN, "no-nb-arm", "no nb -> None", "a version without nb reports revision %s" % term_str(rev), fn_span(body), nontrivial=(saw["nonb"] == 1))
+                continue
+            saw["nb"] += 1
+            # Some(parse::<i64>(text after the last nb)) when it parses, Some(0) otherwise
+            x = unwrap_some(rev)
+            pc = [c for c in p.conds() if c.term[0] == "discr" and is_call(strip_refs(c.term[1]), "str>::parse")]
+            okrev = False
+            why = "revision is %s" % term_str(rev)[:120]
+            if x is not None and pc:
+                pr = strip_refs(pc[-1].term[1])
+                arg = substr(call_args(pr)[0])
+                ra = substr_role(arg)
+                good_arg = "i64" in str(pr[2]) and ra[0] == "suffix" and ra[1] == "rfind" and ra[2] == "nb" and is_ver(arg[0])
+                if pc[-1].fact == ("eq", 0) or (pc[-1].fact[0] == "ne" and 1 in pc[-1].fact[1]):
+                    okrev = good_arg and strip_refs(x) == ("field", ("downcast", pr, "Ok"), 0, "")
+                    why = "when the text after nb parses, revision is %s (parse argument: %s %s %r)" % (term_str(x)[:80], ra[0], ra[1], ra[2])
+                else:
+                    okrev = good_arg and const_int(x) == 0
+                    why = "when the text after nb does not parse, revision is %s; expected Some(0)" % term_str(rev)[:80]
+            ctx.check(okrev, "D3-NB", PN, "nb-arm", "Some(parse::<i64>(text after last nb) or 0)", why + "; expected the i64 parse of the text after the last nb, defaulting to 0", fn_span(body),
+                      nontrivial=(saw["nb"] <= 2))
+        ctx.check(saw["dash"] and saw["nodash"], "D2-ORIENT", PN, "both-arms", "dash / no-dash arms present", "PkgName::new lacks a dash or a no-dash arm", fn_span(body), nontrivial=False)
+        ctx.check(saw["nb"] >= 2 and saw["nonb"], "D3-NB", PN, "both-arms", "nb (parses / does not parse) and no-nb arms present", "PkgName::new lacks an nb or a no-nb arm", fn_span(body), nontrivial=False)
 
     # ---- the accessors through which the split is observed
     for fld in ("pkgname", "pkgbase", "pkgversion", "pkgrevision"):
